@@ -144,8 +144,12 @@ func (o *OracleC05) After(x *Exec, op *Op, res *Res) {
 			// validator shares the record should be left with: vs - amt*S/T. Less than one share can
 			// legitimately vanish in the module's rounding-tolerant subtraction (the record is emptied
 			// when the overdraft is below one share — the dust of the listed finding F-C03)
-			left := new(big.Rat).Sub(decRat(pvs), new(big.Rat).Quo(new(big.Rat).Mul(amt, S), T))
-			if den.Sign() > 0 && num.Sign() > 0 && new(big.Rat).Quo(num, den).Cmp(big.NewRat(1, 100_000_000_000_000_000)) >= 0 && left.Cmp(big.NewRat(1, 1)) >= 0 {
+			removedShares := new(big.Rat).Quo(new(big.Rat).Mul(amt, S), T)
+			left := new(big.Rat).Sub(decRat(pvs), removedShares)
+			// the module computes the shares to remove from an 18-digit ratio: absolute error up to
+			// ~1e-17 of the removed amount, on top of the one-share clamp
+			slack := new(big.Rat).Add(big.NewRat(1, 1), new(big.Rat).Mul(removedShares, big.NewRat(1, 100_000_000_000_000_000)))
+			if den.Sign() > 0 && num.Sign() > 0 && new(big.Rat).Quo(num, den).Cmp(big.NewRat(1, 100_000_000_000_000_000)) >= 0 && left.Cmp(slack) >= 0 {
 				if o.wiped == nil {
 					o.wiped = map[string]bool{}
 				}
